@@ -928,6 +928,11 @@ class SetIndex(BaseSetIndexSortValues):
             return self._filter_simplification(parent)
 
     def _filter_passthrough_available(self, parent, dependents):
+        if isinstance(self._other, Expr):
+            # The new index is a separate collection aligned with the frame
+            # row by row: filtering only the frame would pair the remaining
+            # rows with the index values of other rows
+            return False
         if is_filter_pushdown_available(self, parent, dependents):
             from dask_expr._expr import Index
 
